@@ -103,6 +103,7 @@ def main(pid, tier="quick", seed=0, replay=None):
     backends = {}
     funcs = {}
     inline = set()
+    modular = {}
     samples = []
     known_hit = []
     diff_samples = 0
@@ -122,6 +123,10 @@ def main(pid, tier="quick", seed=0, replay=None):
             funcs[q] = h
         for q in r.get("called", []):
             inline.add(q)
+        for q in r.get("contracts_used", []):
+            ent = modular.setdefault(q, {"obligations_using": 0, "discharged_by": set()})
+            ent["obligations_using"] += 1
+            ent["discharged_by"].update(r.get("uses", []))
         n_vcs += r.get("vcs", 0)
         diff_samples += (r.get("diff") or {}).get("samples", 0) or 0
         base = baseline.get(r["name"])
@@ -247,6 +252,12 @@ def main(pid, tier="quick", seed=0, replay=None):
         "solver_s": round(solver_s, 2),
         "functions_under_contract": funcs,
         "functions_executed_inline": sorted(inline),
+        # callees replaced by a contract (modular rule): which obligations of this run discharge that contract; an
+        # empty list means the contract is ASSUMED (stated in the obligation's note / DESIGN.md 11.3) or is a frame
+        # contract justified by the purity audit (pyvc/loops.audit_pure) rather than by a verification condition
+        "callee_contracts": {q: {"obligations_using": v["obligations_using"],
+                                 "discharged_by": sorted(v["discharged_by"]) or "ASSUMED or audited frame contract"}
+                             for q, v in sorted(modular.items())},
         "differential_samples_vs_cpython": diff_samples,
         "known_findings_open": known_hit,
         "bounded": bsum,
